@@ -9,7 +9,7 @@ cp -r /repo/target "$WT/target" 2>/dev/null
 cleanup() { git -C /repo worktree remove --force "$WT" >/dev/null 2>&1; rm -rf "$WT"; }
 trap cleanup EXIT
 cd "$WT"
-git apply "$SD/patch.diff" || { echo "REJECT $ID: patch does not apply"; exit 1; }
+git apply "$SD/patch.diff" 2>/dev/null || git apply --3way "$SD/patch.diff" >/dev/null 2>&1 || { echo "REJECT $ID: patch does not apply"; exit 1; }
 r2="$(cargo test --offline 2>&1 | grep -E "^test result" | awk '{p+=$4; f+=$6} END {print p" passed "f" failed"}')"
 echo "$ID patched suite: $r2"
 echo "$r2" | grep -q " 0 failed" || { echo "REJECT $ID: suite fails"; exit 1; }
